@@ -305,6 +305,17 @@ func (c *CheckCtx) Finish(wall time.Duration) int {
 			execEnv = &e
 		}
 		reproduced := 0
+		if f.V.Class == "data-race" {
+			// a race needs real goroutines to meet: only the variant that raced is kept (that is a
+			// reduction that needs no reproduction), and the attempts run side by side, which also
+			// gives the scheduler the load under which the race was seen
+			sc = onlyVariant(sc, f.V.Variant)
+			if n := replayParallel(execEnv, sc, k, 5, 8); n > 0 {
+				reproduced++
+				firstTry = n == 1
+			}
+			attempts = 0
+		}
 		for a := 0; a < attempts && reproduced == 0; a++ {
 			out, err := ExecuteScenario(execEnv, sc)
 			if err != nil {
@@ -322,6 +333,15 @@ func (c *CheckCtx) Finish(wall time.Duration) int {
 			for _, alt := range f.Alts {
 				if alt.SimIndex == f.SimIndex {
 					continue
+				}
+				if f.V.Class == "data-race" {
+					asc := onlyVariant(alt.Scenario, alt.V.Variant)
+					if replayParallel(execEnv, asc, k, 3, 8) > 0 {
+						reproduced++
+						firstTry = false
+						f.V, f.Scenario, f.SimIndex = alt.V, asc, alt.SimIndex
+						sc = asc
+					}
 				}
 				for a := 0; a < attempts && reproduced == 0; a++ {
 					out, err := ExecuteScenario(execEnv, alt.Scenario)
@@ -362,7 +382,9 @@ func (c *CheckCtx) Finish(wall time.Duration) int {
 		orig := filepath.Join(c.ReplayDir, name+".orig.json")
 		writeJSON(orig, &ReplayFile{Version: 1, Property: c.Prop, Oracle: f.V.Oracle, Class: f.V.Class, Detail: f.V.Detail, Seed: c.Seed, SimIndex: f.SimIndex, Scenario: sc})
 		min := sc
-		if uncontrolled {
+		if f.V.Class == "data-race" {
+			attempts = 20 // (sc is already reduced to the racing variant)
+		} else if uncontrolled {
 			min = keepControlVariants(sc)
 		} else {
 			min = Minimise(c.Env, sc, k, 60*time.Second)
@@ -408,6 +430,45 @@ func (c *CheckCtx) Finish(wall time.Duration) int {
 }
 
 // keepControlVariants reduces a compare scenario to the base and its control twin.
+// onlyVariant keeps the setup and the named variant.
+func onlyVariant(sc *Scenario, name string) *Scenario {
+	out := cloneScenario(sc)
+	var keep []Variant
+	for _, v := range out.Variants {
+		if v.Name == name {
+			keep = append(keep, v)
+		}
+	}
+	if len(keep) == 0 {
+		return out
+	}
+	out.Variants = keep
+	return out
+}
+
+// replayParallel executes sc par times side by side, for up to rounds rounds, and returns the round
+// (from 1) in which violation k showed, 0 if it never did.
+func replayParallel(env *Env, sc *Scenario, k string, rounds, par int) int {
+	for round := 1; round <= rounds; round++ {
+		var hit atomic.Bool
+		var wg sync.WaitGroup
+		for j := 0; j < par; j++ {
+			wg.Add(1)
+			go func() {
+				defer wg.Done()
+				if out, err := ExecuteScenario(env, cloneScenario(sc)); err == nil && hasKey(out.Violations, k) {
+					hit.Store(true)
+				}
+			}()
+		}
+		wg.Wait()
+		if hit.Load() {
+			return round
+		}
+	}
+	return 0
+}
+
 func keepControlVariants(sc *Scenario) *Scenario {
 	out := cloneScenario(sc)
 	var keep []Variant
